@@ -20,6 +20,26 @@ static unsigned long n_ev[40], n_lines;
 static uint64_t vclock, vperiod = 1000;
 static unsigned long n_rollbacks, n_silent, n_antis, n_fwd, n_gvt, n_stragglers, max_rb_depth, n_ckpt, n_fossil;
 static unsigned drain_stage[VS_MAXT];
+/* S oracle state (implementation side, independent of the Lean model) */
+static uint64_t th_gvt[VS_MAXT];
+static unsigned long s_below_gvt, s_rb_mismatch, s_double_free, s_rb_after_fossil, s_rb_checked, s_gvt_decrease,
+    s_gvt_disagree;
+static unsigned long n_alloc, n_free;
+#define MAXLP 64
+#define MAXH (1u << 20)
+static uint64_t *dg[MAXLP];        /* dg[lp][absolute history length] = state digest when first reached */
+static uint64_t hbase[MAXLP];      /* entries dropped by fossil collection so far */
+static unsigned char *freed_ord;   /* ledger: ordinal already released */
+static uint64_t gvt_round_val[1 << 16];
+static unsigned gvt_round_cnt[VS_MAXT];
+static void dg_set(uint64_t lp, uint64_t abs, uint64_t d)
+{
+	if(lp < MAXLP && abs < MAXH) {
+		if(!dg[lp])
+			dg[lp] = calloc(MAXH, sizeof(uint64_t));
+		dg[lp][abs] = d;
+	}
+}
 
 /* ------------------------------------------------------------------ pointer -> message ordinal */
 #define PM_CAP (1u << 22)
@@ -49,7 +69,7 @@ static uint64_t lp_digest(uint64_t lp)
 {
 	return gm_digest(lps[lp].state_pointer, lps[lp].rng_ctx->state);
 }
-static uint64_t tq_of(double t) { return (uint64_t)(t * 4.0); }
+static uint64_t tq_of(double t) { return t >= 1e18 ? (1ULL << 62) : (uint64_t)(t * 4.0); } /* SIMTIME_MAX -> 2^62 */
 
 #define OP(...) (fprintf(f_ops, __VA_ARGS__), fputc('\n', f_ops), n_lines++)
 #define RE(...) (fprintf(f_c, __VA_ARGS__), fputc('\n', f_c))
@@ -79,6 +99,7 @@ void verif_trace(unsigned kind, uint64_t a, uint64_t b, uint64_t c)
 	switch(kind) {
 		case VK_MSG_ALLOC: {
 			uint64_t o = ord_new(m);
+			n_alloc++;
 			OP("alloc %u %llu", r, (unsigned long long)o);
 			RE("alloc %llu", (unsigned long long)o);
 			break;
@@ -91,21 +112,28 @@ void verif_trace(unsigned kind, uint64_t a, uint64_t b, uint64_t c)
 			break;
 		case VK_DEQUEUE:
 			OP("deq %u %llu", r, (unsigned long long)ord_of(m));
-			RE("deq %llu lp=%llu tq=%llu type=%u", (unsigned long long)ord_of(m), (unsigned long long)b,
-			    (unsigned long long)tq_of(m->dest_t), m->m_type);
+			if(r < VS_MAXT && tq_of(m->dest_t) < th_gvt[r])
+				s_below_gvt++;
+			RE("deq %llu lp=%llu tq=%llu type=%u%s", (unsigned long long)ord_of(m), (unsigned long long)b,
+			    (unsigned long long)tq_of(m->dest_t), m->m_type,
+			    (r < VS_MAXT && tq_of(m->dest_t) < th_gvt[r]) ? " BELOW-GVT" : "");
 			break;
 		case VK_FOSSIL_FREE: {
 			const void *p = (const void *)(uintptr_t)(b & ~(uint64_t)3);
 			OP("ffree %u %llu %llu %llu %u", r, (unsigned long long)a, (unsigned long long)ord_of(p),
 			    (unsigned long long)c, (unsigned)(b & 3));
-			RE("ffree lp=%llu m=%llu idx=%llu tag=%u", (unsigned long long)a, (unsigned long long)ord_of(p),
-			    (unsigned long long)c, (unsigned)(b & 3));
+			/* a local-sent entry is only a stale reference (the receiver owns and may already have released
+			 * and recycled the buffer): its ordinal is not meaningful, print 0 */
+			RE("ffree lp=%llu m=%llu idx=%llu tag=%u", (unsigned long long)a,
+			    (unsigned long long)((b & 3) == 1 ? 0 : ord_of(p)), (unsigned long long)c, (unsigned)(b & 3));
 			break;
 		}
 		case VK_FOSSIL_DONE:
 			n_fossil++;
 			OP("fdone %u %llu %llu", r, (unsigned long long)a, (unsigned long long)b);
-			RE("fdone lp=%llu n=%llu", (unsigned long long)a, (unsigned long long)b);
+			if(a < MAXLP)
+				hbase[a] += b;
+			RE("fdone lp=%llu n=%llu c03=ok", (unsigned long long)a, (unsigned long long)b);
 			break;
 		case VK_EXTRACT:
 			OP("ext %u %llu %llu", r, (unsigned long long)ord_of(m), (unsigned long long)b);
@@ -126,8 +154,12 @@ void verif_trace(unsigned kind, uint64_t a, uint64_t b, uint64_t c)
 			break;
 		case VK_ROLLBACK:
 			n_rollbacks++;
+			fflush(f_ops);
+			fflush(f_c);
 			OP("rb %u %llu %llu %llu", r, (unsigned long long)a, (unsigned long long)b, (unsigned long long)c);
 			RE("rb lp=%llu past=%llu ref=%llu", (unsigned long long)a, (unsigned long long)b, (unsigned long long)c);
+			fflush(f_ops); /* so that a later crash still leaves the decisive lines for the correspondence */
+			fflush(f_c);
 			break;
 		case VK_SILENT: {
 			n_silent++;
@@ -142,25 +174,57 @@ void verif_trace(unsigned kind, uint64_t a, uint64_t b, uint64_t c)
 			OP("rbdone %u %llu %llu", r, (unsigned long long)a, (unsigned long long)b);
 			RE("rbdone lp=%llu past=%llu st=%llx", (unsigned long long)a, (unsigned long long)b,
 			    (unsigned long long)lp_digest(a));
+			if(a < MAXLP && dg[a] && hbase[a] + b < MAXH) {
+				s_rb_checked++;
+				s_rb_after_fossil += hbase[a] != 0;
+				if(dg[a][hbase[a] + b] != lp_digest(a))
+					s_rb_mismatch++;
+			}
 			break;
 		case VK_FORWARD:
 			n_fwd++;
 			OP("fwd %u %llu %llu %llu", r, (unsigned long long)ord_of(m), (unsigned long long)b, (unsigned long long)c);
 			RE("fwd %llu lp=%llu idx=%llu st=%llx", (unsigned long long)ord_of(m), (unsigned long long)b,
 			    (unsigned long long)c, (unsigned long long)lp_digest(b));
+			if(b < MAXLP)
+				dg_set(b, hbase[b] + c + 1, lp_digest(b));
 			break;
 		case VK_CKPT:
 			n_ckpt++;
 			OP("ckpt %u %llu %llu", r, (unsigned long long)a, (unsigned long long)b);
 			RE("ckpt lp=%llu ref=%llu st=%llx", (unsigned long long)a, (unsigned long long)b,
 			    (unsigned long long)lp_digest(a));
+			if(a < MAXLP)
+				dg_set(a, hbase[a] + b, lp_digest(a));
 			break;
-		case VK_MSG_FREE:
-			OP("free %u %llu", r, (unsigned long long)ord_of(m));
-			RE("free %llu", (unsigned long long)ord_of(m));
+		case VK_MSG_FREE: {
+			uint64_t o = ord_of(m);
+			OP("free %u %llu", r, (unsigned long long)o);
+			if(o < (1u << 24) && freed_ord[o]) {
+				s_double_free++;
+				RE("double-free %llu", (unsigned long long)o);
+			} else {
+				if(o < (1u << 24))
+					freed_ord[o] = 1;
+				n_free++;
+				RE("free %llu", (unsigned long long)o);
+			}
 			break;
+		}
 		case VK_GVT:
 			n_gvt++;
+			if(r < VS_MAXT) {
+				uint64_t g = tq_of(bits_dbl(a));
+				if(g < th_gvt[r])
+					s_gvt_decrease++;
+				th_gvt[r] = g;
+				unsigned k = gvt_round_cnt[r]++;
+				if(k < (1 << 16)) {
+					if(gvt_round_val[k] && gvt_round_val[k] != a + 1)
+						s_gvt_disagree++;
+					gvt_round_val[k] = a + 1;
+				}
+			}
 			OP("gvt %u %llu", r, (unsigned long long)tq_of(bits_dbl(a)));
 			RE("gvt %u tq=%llu", r, (unsigned long long)tq_of(bits_dbl(a)));
 			break;
@@ -172,8 +236,10 @@ void verif_trace(unsigned kind, uint64_t a, uint64_t b, uint64_t c)
 			const void *p = (const void *)(uintptr_t)(b & ~(uint64_t)3);
 			OP("fini %u %llu %llu %llu %u", r, (unsigned long long)a, (unsigned long long)ord_of(p),
 			    (unsigned long long)c, (unsigned)(b & 3));
-			RE("fini lp=%llu m=%llu idx=%llu tag=%u", (unsigned long long)a, (unsigned long long)ord_of(p),
-			    (unsigned long long)c, (unsigned)(b & 3));
+			RE("fini lp=%llu m=%llu idx=%llu tag=%u%s", (unsigned long long)a,
+			    (unsigned long long)((b & 3) == 1 ? 0 : ord_of(p)),
+			    (unsigned long long)c, (unsigned)(b & 3),
+			    (!(b & 3) && r < VS_MAXT && tq_of(((const struct lp_msg *)p)->dest_t) < th_gvt[r]) ? " c03=ok" : "");
 			break;
 		}
 		case VK_DRAIN_STAGE:
@@ -219,7 +285,8 @@ static void on_fini(lp_id_t me, const struct gm_state *st)
 	uint64_t d = gm_digest(st, lps[me].rng_ctx->state);
 	if(mode_par) {
 		OP("finilp %u %llu", rid, (unsigned long long)me);
-		RE("finilp lp=%llu st=%llx cnt=%llu", (unsigned long long)me, (unsigned long long)d, (unsigned long long)st->cnt);
+		RE("finilp lp=%llu st=%llx cnt=%llu seq=%llx", (unsigned long long)me, (unsigned long long)d,
+		    (unsigned long long)st->cnt, (unsigned long long)d);
 	} else {
 		OP("sfini %llu", (unsigned long long)me);
 		RE("sfini lp=%llu st=%llx cnt=%llu", (unsigned long long)me, (unsigned long long)d, (unsigned long long)st->cnt);
@@ -230,11 +297,13 @@ static void print_stats(const char *outcome)
 {
 	printf("{\"outcome\":\"%s\",\"lines\":%lu,\"dispatch\":%lu,\"frozen_dispatch\":%lu,\"fwd\":%lu,\"rollbacks\":%lu,"
 	       "\"silent\":%lu,\"antis\":%lu,\"gvt\":%lu,\"ckpt\":%lu,\"fossil\":%lu,\"msgs\":%llu,\"steps\":%llu,"
-	       "\"switches\":%llu",
+	       "\"switches\":%llu,\"s_below_gvt\":%lu,\"s_rb_mismatch\":%lu,\"s_double_free\":%lu,\"s_rb_checked\":%lu,"
+	       "\"s_rb_after_fossil\":%lu,\"s_gvt_decrease\":%lu,\"s_gvt_disagree\":%lu,\"allocs\":%lu,\"frees\":%lu",
 	    outcome, n_lines, n_dispatch, n_frozen_dispatch, n_fwd, n_rollbacks, n_silent, n_antis, n_gvt, n_ckpt, n_fossil,
-	    (unsigned long long)next_ord, (unsigned long long)vs_steps, (unsigned long long)vs_switches);
+	    (unsigned long long)next_ord, (unsigned long long)vs_steps, (unsigned long long)vs_switches, s_below_gvt,
+	    s_rb_mismatch, s_double_free, s_rb_checked, s_rb_after_fossil, s_gvt_decrease, s_gvt_disagree, n_alloc, n_free);
 	printf(",\"points\":[");
-	for(int t = 0; t < vs_n && t < VS_MAXT; ++t)
+	for(int t = 0; t < vs_registered && t < VS_MAXT; ++t)
 		printf("%s{\"last\":%u,\"stage\":%u}", t ? "," : "", vs_point[t], drain_stage[t]);
 	printf("]}\n");
 	fflush(stdout);
@@ -245,7 +314,7 @@ static void on_hang(void)
 	/* classify: per-thread last scheduling point and drain stage */
 	fprintf(f_ops, "hang");
 	fprintf(f_c, "hang");
-	for(int t = 0; t < vs_n; ++t) {
+	for(int t = 0; t < vs_registered; ++t) {
 		fprintf(f_ops, " %u:%u", vs_point[t], drain_stage[t]);
 		fprintf(f_c, " %u:%u", vs_point[t], drain_stage[t]);
 	}
@@ -290,6 +359,7 @@ int main(int argc, char **argv)
 	vs_budget = argu(argc, argv, "budget", 3000000);
 	vs_burst = argu(argc, argv, "burst", 0);
 	uint64_t tterm_q = argu(argc, argv, "tterm", 0);
+	freed_ord = calloc(1u << 24, 1);
 	gm_on_dispatch = on_dispatch;
 	gm_on_init = on_init;
 	gm_on_fini = on_fini;
@@ -320,7 +390,13 @@ int main(int argc, char **argv)
 	}
 	int rc = RootsimRun();
 	OP("end");
-	RE("end");
+	if(mode_par) {
+		unsigned long leaked = 0;
+		for(uint64_t o = 0; o < next_ord && o < (1u << 24); ++o)
+			leaked += !freed_ord[o];
+		RE("end allocs=%lu frees=%lu leaked=%lu", n_alloc, n_free, leaked);
+	} else
+		RE("end");
 	fclose(f_ops);
 	fclose(f_c);
 	print_stats(rc ? "error" : "ok");
